@@ -2,6 +2,7 @@ package mon
 
 import (
 	"sync"
+	"time"
 
 	rocksdb "github.com/facebookincubator/dns/dnsrocks/cgo-rocksdb"
 	"github.com/facebookincubator/dns/dnsrocks/dnsdata/rdb"
@@ -16,6 +17,9 @@ type FaultyRDBI struct {
 	// OnFail is told which call was failed.
 	OnFail func(call string, index int)
 	Calls  map[string]int
+	// FailNamed, when set, also fails the k-th (0-based) call of the given name, e.g. the second
+	// low-level ExecuteBatch: writes are rare among all calls, so an index over all calls seldom hits one.
+	FailNamed map[string]int
 	// Suspend makes the wrapper transparent (used for the harness's own verification reads).
 	Suspend bool
 	mu      sync.Mutex // free-running compilations call from several goroutines
@@ -33,6 +37,12 @@ func (f *FaultyRDBI) hit(call string) bool {
 	f.Calls[call]++
 	i := f.N
 	f.N++
+	if k, ok := f.FailNamed[call]; ok && k == f.Calls[call]-1 {
+		if f.OnFail != nil {
+			f.OnFail(call, i)
+		}
+		return true
+	}
 	if f.FailAt[i] {
 		if f.OnFail != nil {
 			f.OnFail(call, i)
@@ -104,6 +114,16 @@ type LowFault struct {
 	mu    sync.Mutex
 	armed map[string]bool
 	fired map[string]bool
+	slow  map[string]time.Duration
+}
+
+func (f *LowFault) setSlow(task string, d time.Duration) {
+	f.mu.Lock()
+	if f.slow == nil {
+		f.slow = map[string]time.Duration{}
+	}
+	f.slow[task] = d
+	f.mu.Unlock()
 }
 
 func (f *LowFault) arm(task string) {
@@ -137,7 +157,13 @@ func (f *LowFault) CatchWithPrimary() error {
 		delete(f.armed, task)
 		f.fired[task] = true
 	}
+	stall := f.slow[task]
+	delete(f.slow, task)
 	f.mu.Unlock()
+	if stall > 0 && f.M != nil {
+		time.Sleep(stall)
+		f.M.y.Y("low.catchup.slow")
+	}
 	if hit {
 		return ErrInjected
 	}
